@@ -165,6 +165,32 @@ theorem C17_symmetric (sub : σ → σ → α) (gap : α) (hsym : ∀ a b, sub a
   have h : (fun a b => sub b a) = sub := by funext a b; exact (hsym a b).symm
   simpa [h] using C17_transpose sub gap s1 s2
 
+theorem borderVal_add (gap : α) (m n : Nat) : borderVal gap (m + n) = borderVal gap m + borderVal gap n := by
+  induction m with
+  | zero => simp [borderVal]
+  | succ m ih => rw [Nat.succ_add, borderVal, borderVal, ih, add_assoc]
+
+/-- the cost never exceeds that of the all-gaps alignment (delete all of `s1`, insert all of `s2`) -/
+theorem nwSpec_le_all_gaps (sub : σ → σ → α) (gap : α) (xs zs : List σ) :
+    nwSpec sub gap xs zs ≤ borderVal gap (xs.length + zs.length) := by
+  induction xs with
+  | nil => rw [nwSpec_nil_left]; simp
+  | cons x xs ih =>
+    cases zs with
+    | nil => rw [nwSpec_nil_right]; simp
+    | cons z zs =>
+      rw [nwSpec_cons]
+      refine le_trans (min_le_left _ _) (le_trans (min_le_right _ _) ?_)
+      have : (x :: xs).length + (z :: zs).length = (xs.length + (z :: zs).length) + 1 := by simp; omega
+      rw [this, borderVal]
+      exact add_le_add le_rfl ih
+
+/-- **Bound**: the returned score is at least the score of the alignment made of gaps only,
+`-(len s1 + len s2) * gap` in the orientation of the caller. -/
+theorem C17_all_gaps_bound (sub : σ → σ → α) (gap : α) (s1 s2 : List σ) :
+    nwValue sub gap s1 s2 ≤ borderVal gap (s1.length + s2.length) := by
+  simpa [nwValue] using nwSpec_le_all_gaps sub gap s1.reverse s2.reverse
+
 /-- non-vacuity on the docstring example: GATTACA / GCATGCU with the default scoring has cost 0 -/
 example :
     let sub : Char → Char → Int := fun a b => if a = b then -1 else 1
